@@ -35,7 +35,7 @@ enum Fam : uint32_t {
 };
 
 struct Action {
-    enum K { RUN, PUB, SUB, UNSUB, RECV, DISC, CANCEL, DESTROY, MOVE_ASSIGN, SIGNAL, BARRIER, WAIT_HS, BPUB, REAUTH, MARK_STOP, RERUN_CHECK, KILLCONN, BRAW, PUBMANY, NOP } k = NOP;
+    enum K { RUN, PUB, SUB, UNSUB, RECV, DISC, CANCEL, DESTROY, MOVE_ASSIGN, SIGNAL, BARRIER, WAIT_HS, BPUB, REAUTH, MARK_STOP, RERUN_CHECK, KILLCONN, BRAW, PUBMANY, BWAIT, NOP } k = NOP;
     int qos = 0, tag = 0; bool retain = false; std::string topic, payload; ref::Props props;
     std::vector<std::pair<std::string, uint8_t>> filters;
     int target_op = -1; int sig_type = 1;      // SIGNAL: op index in App::ops; 1 total, 2 partial, 4 terminal
